@@ -220,3 +220,9 @@ def r5(c):
 def r6(c):
     from rules import c15
     c15.r3(c)
+
+
+@rule('C20', 'R20.7', 'a level change queued between requests does not touch the consecutive-timeout count: the counter discipline of run_one_request (C12/R12.3)')
+def r7(c):
+    from rules import c12
+    c12.r3(c)
